@@ -387,7 +387,7 @@ func (u *Universe) ZeroValue(t types.Type) Term {
 		}
 		return "0"
 	case *types.Slice:
-		return "nil.slice"
+		return "(mk.slice 0 0 0 0)"
 	case *types.Struct:
 		si := u.StructOf(t)
 		if len(si.Fields) == 0 {
@@ -401,7 +401,7 @@ func (u *Universe) ZeroValue(t types.Type) Term {
 	case *types.Array:
 		return "((as const " + u.SortOf(t) + ") " + u.ZeroValue(x.Elem()) + ")"
 	case *types.Interface:
-		return "nil.iface"
+		return "(mk.iface 0 0)"
 	}
 	return "0"
 }
@@ -431,6 +431,10 @@ func (u *Universe) Prelude(db *SpecDB) string {
 	b.WriteString("(declare-datatypes ((Bytes 0)) (((mk.bytes (b.len Int) (b.arr (Array Int Int))))))\n")
 	b.WriteString("(declare-fun fld (Int Int) Int)\n(declare-fun fld.base (Int) Int)\n(declare-fun fld.idx (Int) Int)\n")
 	b.WriteString("(assert (forall ((r Int) (k Int)) (! (and (< (fld r k) 0) (= (fld.base (fld r k)) r) (= (fld.idx (fld r k)) k)) :pattern ((fld r k)))))\n")
+	// oroot(o): the allocated object a (possibly interior) reference belongs to
+	b.WriteString("(declare-fun oroot (Int) Int)\n")
+	b.WriteString("(assert (forall ((r Int) (k Int)) (! (= (oroot (fld r k)) (oroot r)) :pattern ((fld r k)))))\n")
+	b.WriteString("(assert (forall ((o Int)) (! (=> (>= o 0) (= (oroot o) o)) :pattern ((oroot o)))))\n")
 	b.WriteString("(declare-fun loc (Int Int) Int)\n(assert (forall ((o Int) (i Int)) (! (= (loc o i) (+ o i)) :pattern ((loc o i)))))\n")
 	b.WriteString("(declare-fun win ((Array Int Int) Int Int) (Array Int Int))\n")
 	b.WriteString("(assert (forall ((r (Array Int Int)) (o Int) (n Int) (i Int)) (! (= (select (win r o n) i) (ite (and (<= 0 i) (< i n)) (select r (loc o i)) 0)) :pattern ((select (win r o n) i)))))\n")
